@@ -36,6 +36,9 @@ def plan(tier, seed):
     p = 3 if tier == 'quick' else 8
     for i in range(p):
         shards.append({'name': 'pipeline-%d' % i, 'fn': 'shard_pipeline', 'args': {'part': i}})
+    shards.append({'name': 'long-history', 'fn': 'shard_long_history', 'args': {}})
+    if tier == 'thorough':
+        shards.append({'name': 'million-keys', 'fn': 'shard_million_keys', 'args': {}, 'timeout': 3600})
     for i in range(1 if tier == 'quick' else 3):
         shards.append({'name': 'export-%d' % i, 'fn': 'shard_export', 'args': {'part': i}})
     return shards
@@ -282,3 +285,43 @@ def shard_export(sh, part):
                  lambda: {'cap': cap, 'candidates': nfeat + 1, 'exported': dict(list(nz.items())[:20]), 'evaluated_at_pool': dict(list(evaluated.items())[:20])})
         sh.case(('export', run, part, nfeat, rows, bs), True, 'export/' + ('returned-copy' if run % 2 == 0 else 'json-file'),
                 sample={'rows': rows, 'batch': bs, 'features': nfeat, 'sampler_calls': mon.calls, 'exported_head': dict(list(exported.items())[:5])})
+
+
+def shard_long_history(sh):
+    """More than 2^16 batches over a stable list, then a late joiner (a new constructed column): the newcomer has count 0 and must
+    be preferred; counts above 65535 must still order candidates correctly."""
+    cr = pipe.fresh_core_ranking()
+    mon = SamplerMonitor(sh, cr)
+    real = mon.real
+    base = [('feature_%d' % i, 'label') for i in range(4)]
+    n_batches = 2 ** 16 + 6
+    args_all = pipe.make_args(combination_number_upper_bound=len(base))
+    # the bulk of the history goes through the real sampler without the (slower) monitor; every 4096th call is monitored
+    for b in range(n_batches):
+        if b % 4096 == 0:
+            mon(list(base), args_all)
+        else:
+            real(list(base), args_all)
+            mon.selections.update(base)
+    late = ('MULTIEX-tags-rare_value', 'label')
+    cand = base[:2] + [late] + base[2:]
+    for cap in (1, 1, 2, 3):
+        mon(list(cand), pipe.make_args(combination_number_upper_bound=cap))
+    # a second regime: counts far apart by more than 2^16 within one list
+    for cap in (1, 4, 5):
+        mon(list(cand), pipe.make_args(combination_number_upper_bound=cap))
+    sh.case(('long-history', n_batches), True, 'long-history(>2^16 batches)+late-joiner', sample={'batches': n_batches, 'counts': {str(k): cr.GLOBAL_PRIOR_COMB_COUNTS[k] for k in cand}})
+
+
+def shard_million_keys(sh):
+    """More than 2^20 tracked combinations shared by two alternating candidate lists (interaction space of ~1500 columns and the
+    pair list of a batch): the history of one list must survive calls for the other."""
+    cr = pipe.fresh_core_ranking()
+    mon = SamplerMonitor(sh, cr)
+    k = 1500
+    big = [('c%d' % i, 'c%d' % j) for i in range(k) for j in range(i + 1, k)]          # 1,124,250 pairs
+    small = [('c%d' % i, 'label') for i in range(20)]
+    for step in range(3):
+        mon(big, pipe.make_args(combination_number_upper_bound=1000))
+        mon(list(small), pipe.make_args(combination_number_upper_bound=7))
+    sh.case(('million-keys', len(big)), True, 'more-than-2^20-tracked-combinations', sample={'tracked': len(cr.GLOBAL_PRIOR_COMB_COUNTS), 'big_list': len(big)})
